@@ -158,13 +158,20 @@ func checkC08(c *Check) {
 			if len(sites) == 0 {
 				return false
 			}
+			// call sites inside this worker (a helper shared by several
+			// workers is judged per worker)
+			n := 0
 			for _, s := range sites {
+				if !inBody[s.Parent()] {
+					continue
+				}
+				n++
 				sv, ok := s.(ssa.Value)
-				if !ok || !inBody[s.Parent()] || !reachesWorkerResult(sv, s.Parent(), depth+1) {
+				if !ok || !reachesWorkerResult(sv, s.Parent(), depth+1) {
 					return false
 				}
 			}
-			return true
+			return n > 0
 		}
 		for _, ci := range bodyCalls {
 			cc := ci.Common()
@@ -323,13 +330,16 @@ func checkC08(c *Check) {
 	}
 	// RunNamedPipe returns eg.Wait's error
 	var wait *ssa.Call
-	allInstrs(run, func(in ssa.Instruction) {
-		if cl, ok := in.(*ssa.Call); ok {
-			if sc := staticCallee(cl.Common()); sc != nil && sc.String() == "(*golang.org/x/sync/errgroup.Group).Wait" {
-				wait = cl
+	// in RunNamedPipe or in a function of its package it is split into
+	for _, bf := range cmdBody(p, run) {
+		allInstrs(bf, func(in ssa.Instruction) {
+			if cl, ok := in.(*ssa.Call); ok {
+				if sc := staticCallee(cl.Common()); sc != nil && sc.String() == "(*golang.org/x/sync/errgroup.Group).Wait" {
+					wait = cl
+				}
 			}
-		}
-	})
+		})
+	}
 	if wait == nil {
 		c.Bad("wait-error-to-exit-status", "eg.Wait() in RunNamedPipe", p.Pos(run.Pos()), "the daemon does not wait for its workers")
 	} else {
@@ -338,11 +348,34 @@ func checkC08(c *Check) {
 		ok := false
 		why := "the result of eg.Wait() is not tested"
 		if nn != nil {
-			ok, why = returnsOnEdge(r, run, nn, wait, false)
+			ok, why = returnsOnEdge(r, wait.Parent(), nn, wait, false)
 		} else {
 			fl := &errFlow{p: p, seen: map[ssa.Value]bool{}}
 			fl.follow(wait, 0)
 			ok = len(fl.Returned) > 0
+		}
+		// a helper holding the Wait: its result must in turn be RunNamedPipe's
+		for hf := wait.Parent(); ok && hf != run; {
+			sites := staticCallers(p, hf)
+			if len(sites) != 1 {
+				ok, why = false, "the function waiting for the workers is not called exactly once"
+				break
+			}
+			sv, isVal := sites[0].(ssa.Value)
+			if !isVal {
+				ok, why = false, "the result of the function waiting for the workers is dropped"
+				break
+			}
+			if hn, _, _ := errEdge(sv); hn != nil {
+				ok, why = returnsOnEdge(r, sites[0].Parent(), hn, sv, false)
+			} else {
+				fl := &errFlow{p: p, seen: map[ssa.Value]bool{}}
+				fl.follow(sv, 0)
+				if len(fl.Returned) == 0 {
+					ok, why = false, "the result of the function waiting for the workers is dropped"
+				}
+			}
+			hf = sites[0].Parent()
 		}
 		c.Cond(ok, "wait-error-to-exit-status", "RunNamedPipe returns eg.Wait()'s error", p.InstrPos(wait), "the first worker error becomes RunNamedPipe's result", "the workers' error is dropped: "+why)
 		// every worker is started before Wait
